@@ -189,6 +189,7 @@ func C12(c *core.Ctx) {
 	c.Rule("C12-R2", "order validator truth table", 4)
 	c.Rule("C12-R3", "every shipped rate table strictly descending, undated last (code literals and data files)", 60)
 	c.Rule("C12-R4", "combo rate preparation: error on no value, exempt clears, percent+surcharge from the same value", 4)
+	shareDefinitionsImmutable(c, "C12-R7", "the rate tables cannot be written through a calculated document or at run time (shared with C15-R2/R4)")
 	c.Rule("C12-R5", "tax date = value date else issue date", 1)
 	c.Rule("C12-R6", "code rate tables equal data/regimes/*.json", 15)
 
